@@ -68,7 +68,9 @@ claim("C02", "Loop contracts of solve_one / BacktrackSolver.solve: each search r
       "and a search (solve_one#sem) never loses a solution that is somewhere in the stack. The last composition step (delivered exactly once over a whole enumeration) is checked by the bounded engine suite against brute force under all 24 configurations.",
       "contract-based deductive verification + bounded engine suite", level="other")
 claim("C03", "Loop contracts of BacktrackSolver.optimize / optimize_and_queue (both directions): after each improving solution the solver is reset to the root, the objective view bound is set just past the incumbent (through the offset), "
-      "the incumbent stays inside the declared domain, the loop measure decreases; decrease_max / increase_min contracts; MultiprocessingSolver.optimize keeps the extremal message. Optimality w.r.t. the solution set is checked by the bounded engine suite.",
+      "the incumbent stays inside the declared domain, the loop measure decreases; decrease_max / increase_min contracts; MultiprocessingSolver.optimize keeps the extremal message. "
+      "Optimality is proved in the semantic layer (optimize#minsem/#maxsem over solve_one#sem): None is returned only if no assignment satisfying every posted relation lies in the root box, and a returned assignment is at least as good as every such assignment "
+      "(loop invariant: every solution strictly better than the incumbent is still in the root box). That the returned assignment itself satisfies the relations is C01 (bounded composition); the bounded engine suite cross-checks against brute force.",
       "contract-based deductive verification + bounded engine suite", level="other")
 claim("C04", "decreases clauses discharged for: the propagation loop of bound_consistency_algorithm (lexicographic measure: total size of the current box, number of queued propagators — for ANY propagators satisfying the interface), "
       "the shaving loop (domains left to scan, bounds left to try, total size), the optimisation loop, the reducers; for-loops of all functions under contract are bounded by construction; unroll-mode exhaustion for the while loops of lexicographic_leq up to 5 pairs. "
